@@ -31,11 +31,20 @@ type Scenario struct {
 	Main     []*lib.BlockSpec
 	Rounds   []Round
 	ObsFrom  uint64 // only blocks >= ObsFrom are queried (0 = all)
-	Warm     bool   // ask event queries on node A before each revert (fills the filter cache)
-	Restart  bool   // after each round also compare restarted copies of A and B
-	Seed     uint64
-	Case     int
-	Name     string
+	// RestartPlan: one entry per restart position of node A, consumed in order (positions: before
+	// every RevertHead, before the first Store of every fork, before every comparison). 0 = keep the
+	// Blockchain instance, 1 = new Blockchain on the same database (process killed), 2 = write the
+	// running-filter snapshot first (graceful shutdown), then new Blockchain. Past its end,
+	// RestartMode is used for the first RevertHead of a round and the first fork Store (rotated).
+	RestartPlan   []int
+	RestartMode   int
+	SmallUniverse bool // state queries over {0x1, 0x2, 0x104, unused} x {slot 3, unused} only
+	LightModel    bool // skip the (8 MB) running-filter family in the model comparison
+	Warm          bool // ask event queries on node A before each revert (fills the filter cache)
+	Restart       bool // after each round also compare restarted copies of A and B
+	Seed          uint64
+	Case          int
+	Name          string
 }
 
 var versions = []string{"0.13.2", "0.13.4", "0.14.0", "0.14.1"}
@@ -301,6 +310,18 @@ func newNode(name string, newState bool) *Node {
 func (n *Node) Restarted(newState bool) *Node {
 	d := n.DB.Copy()
 	return &Node{Name: n.Name + "-restarted", BC: lib.NodeOn(d, lib.TestNetwork(), newState), DB: d}
+}
+
+// RestartInPlace replaces the Blockchain instance by a new one on the SAME database: everything
+// the node keeps in memory (running event filter, filter cache) is lost and rebuilt lazily.
+func (n *Node) RestartInPlace(newState, graceful bool) error {
+	if graceful {
+		if err := n.BC.WriteRunningEventFilter(); err != nil {
+			return err
+		}
+	}
+	n.BC = lib.NodeOn(n.DB, lib.TestNetwork(), newState)
+	return nil
 }
 
 func (n *Node) Store(b *lib.Bundle) error {
